@@ -386,6 +386,71 @@ static void case_tiny_scale_witness(Rng& rng, uint64_t index)
 	judge("Vegas-integrates-zero-and-tiny-constants", std::isfinite(o.result) ? err : 1e300, C.F.c == 0.0 ? 0.0 : 1e-9, [&] { return J().d("result", o.result).d("exact", (double) exact); });
 }
 
+// regions that are narrow compared with their distance from the origin (width/offset 1e-13..1e-11, still thousands of doubles wide): an ulp of a
+// coordinate is a visible fraction of the width, so a point formed as a sum of two rounded products instead of lower + xi*width falls one ulp outside
+// now and then - about 2e-5 per evaluation at 1e-12 (seeded change C14-r7m3).  Many evaluations per call, every one checked against the limits.
+static void case_far_narrow_region(Rng& rng, uint64_t index)
+{
+	Call C;
+	C.R.dim = 1 + (int) (index % 3);
+	for(int i = 0; i < C.R.dim; i++)
+	{
+		double lo = rng.sign() * rng.loguni(1e8, 1e10);
+		C.R.lo.push_back(lo);
+		C.R.w.push_back(std::fabs(lo) * rng.loguni(2e-13, 1e-11));
+	}
+	C.F		 = gen_integrand(rng, C.R.dim, 1);
+	C.method = (int) ((index / 3) % 3);
+	C.ncall	 = ctx().is_asan() ? 30000 : 300000;
+	C.seed	 = (unsigned) rng.next();
+	set_params(call_json(C));
+	hash_call(C);
+	mark_nontrivial();
+	Obs o = run_call(C);
+	judge_inside(C, o);
+}
+
+// an integrand that runs another integration (two-level Monte Carlo) and uses its own argument afterwards: the point handed to it is its own
+// (seeded change C14-r7m1 handed out a reference to one static buffer that the inner integration overwrites)
+static void case_nested_integration(Rng& rng, uint64_t index)
+{
+	// outer method: plain Monte Carlo only.  Miser and Vegas keep their working state in function-local statics and are not re-entrant (a Miser integrand
+	// that starts another Miser integration does not return on the unchanged tree either); the property speaks of integrations run before, not inside,
+	// one another, so that is noted in DESIGN section 7 and not driven here.
+	Call O = gen_call(rng, 1, 0, rng.irange(1, 3)), I = gen_call(rng, 1, (int) (index % 2), rng.irange(1, 4));
+	O.ncall = std::min(O.ncall, 3000), I.ncall = 400;
+	set_params(call_json(O).str("inner_method", MC[I.method]).i("inner_dimension", I.R.dim));
+	hash_call(O);
+	mark_nontrivial();
+	std::vector<double> oreg = O.R.flat();
+	const std::vector<double> oreg0 = oreg;
+	int dim = O.R.dim;
+	uint64_t n = 0, changed = 0, outside = 0, inner_runs = 0;
+	std::function<double(std::vector<double>&, const double)> fo = [&](std::vector<double>& x, const double) {
+		n++;
+		const std::vector<double> mine = x;
+		if(n % 7 == 1)
+		{
+			std::vector<double> ireg = I.R.flat();
+			std::function<double(std::vector<double>&, const double)> fi = [&](std::vector<double>& y, const double) { return I.F.eval(I.R, y); };
+			(void) Integrate_MC(fi, ireg, I.ncall, std::string(MC[I.method]));
+			inner_runs++;
+		}
+		if(x != mine)
+			changed++;
+		for(int i = 0; i < dim && i < (int) x.size(); i++)
+			if(!(x[i] >= oreg0[i] && x[i] <= oreg0[i + dim]))
+				outside++;
+		return O.F.eval(O.R, mine);
+	};
+	set_seed(O.seed);
+	StreamCapture cap;
+	double res = Integrate_MC(fo, oreg, O.ncall, std::string(MC[O.method]));
+	auto det = [&] { return J().i("outer_evaluations", (long long) n).i("inner_integrations", (long long) inner_runs).i("points_changed_by_the_inner_integration", (long long) changed).i("coordinates_outside_afterwards", (long long) outside).d("result", res); };
+	require("sample-point-is-unchanged-by-an-integration-run-inside-the-integrand", changed == 0 && outside == 0 && inner_runs > 0, det);
+	require("nested-integration-returns-a-number", std::isfinite(res), det);
+}
+
 // ------------------------------------------------------------------------------------------------------------------
 // history independence
 static std::string obs_blob(const Obs& o)
@@ -594,6 +659,8 @@ static void setup()
 	add_generator("vegas_tiny_scale_witnesses", 8, case_tiny_scale_witness);
 	add_generator("smooth_integrands", ctx().count(1350, 54000), case_accuracy, 900.0);
 	add_generator("constants", ctx().count(900, 36000), case_constant, 900.0);
+	add_generator("far_narrow_regions", ctx().count(18, 360), case_far_narrow_region, 600.0);
+	add_generator("nested_integrations", ctx().count(120, 6000), case_nested_integration, 600.0);
 	add_generator("history_pairs", ctx().count(750, 30000), case_history, 1200.0);
 	add_generator("front_ends_2d_3d", ctx().count(600, 24000), case_frontend, 900.0);
 }
